@@ -5,8 +5,13 @@ python3 "$ROOT/tools/c16_matrix.py" "$tier"; _r=$?; [ $_r -gt $_rc ] && _rc=$_r
 _parts="k1"
 mkdir -p "$ROOT/target/transcripts16"
 _built=""
+# the five configurations have their own target directories: build them concurrently
 for cfg in rel relcheck stdmin nostd nostdcheck; do
-  if build $cfg c16; then
+  ( if [ "$cfg" = nostd ]; then build $cfg c16 c06; else build $cfg c16; fi; echo $? > "$ROOT/target/c16-build-$cfg.rc" ) &
+done
+wait
+for cfg in rel relcheck stdmin nostd nostdcheck; do
+  if [ "$(cat "$ROOT/target/c16-build-$cfg.rc" 2>/dev/null)" = 0 ]; then
     NBMC_NO_PYREF=1 NBMC_PART=$cfg NBMC_CONFIG=$cfg NBMC_TRANSCRIPT_OUT="$ROOT/target/transcripts16/$cfg.txt" "$(bindir $cfg)/c16" "$tier"; _r=$?
     [ $_r -gt $_rc ] && _rc=$_r
     _parts="$_parts $cfg"; _built="$_built $cfg"
@@ -18,7 +23,7 @@ for cfg in rel relcheck stdmin nostd nostdcheck; do
 done
 # the complete C06 (text / radix conversion) space in the no_std build: the feature-conditional buffer
 # estimates live in exactly that code, so every value/radix/input string of C06 is re-checked there
-if build nostd c06; then
+if [ -x "$(bindir nostd)/c06" ] && [ "$(cat "$ROOT/target/c16-build-nostd.rc" 2>/dev/null)" = 0 ]; then
   NBMC_AS=C16 NBMC_NO_PYREF=1 NBMC_PART=c06-nostd NBMC_CONFIG=nostd "$(bindir nostd)/c06" "$tier" | grep -v "^C16\[" ; _r=${PIPESTATUS[0]}
   [ $_r -gt $_rc ] && _rc=$_r
   _parts="$_parts c06-nostd"
